@@ -102,19 +102,6 @@ Fixpoint spec_state (dflt : option V) (m : smap) (ops : list (op K V)) : smap :=
   | o :: r => spec_state dflt (fst (spec_step dflt m o)) r
   end.
 
-(* What CaseInsensitiveDefaultDict does where it departs from the reference map with default d0
-   (finding C13-F4, see notes/C13.md): setdefault(k, x) of an absent key yields d0 and does NOT insert. *)
-Definition dspec_step (d0 : V) (m : smap) (o : op K V) : smap * eres (ret K V) :=
-  match o with
-  | OSetdefault k d => (m, match sm_get m k with Some v => EOk (RVal v) | None => EOk (RVal d0) end)
-  | _ => spec_step (Some d0) m o
-  end.
-Fixpoint dspec_run (d0 : V) (probes : list K) (m : smap) (ops : list (op K V)) : list (eres (ret K V) * obs K V) :=
-  match ops with
-  | [] => []
-  | o :: r => let (m', x) := dspec_step d0 m o in (x, spec_observe (Some d0) probes m') :: dspec_run d0 probes m' r
-  end.
-
 (* ---- the set: lower-cased key -> last written spelling *)
 Definition sset := list (K * K).
 Fixpoint ss_find (kl : K) (m : sset) : option K :=
